@@ -294,7 +294,7 @@ def main(tier, seed, scale=1.0):
     failing = run_directed(chk, pool, ctxs)
     names = Names(pool, failing)
     G.DEFAULT_NAMES = names
-    G.EXCLUDE_KINDS = {"BoxT"}
+    G.EXCLUDE_KINDS = {"BoxT", "VecG"}
     try:
         cases = collect_cases(seed, n, cap)
     finally:
